@@ -95,10 +95,16 @@ Proof.
   apply nth_error_Some. congruence.
 Qed.
 
-#[global] Hint Resolve g_le_refl g_le_set_cur g_le_set_tags g_le_rm_tag g_le_add_log g_le_add_inst : gle.
+Lemma g_le_set_multi g : g_le g (set_multi g).
+Proof.
+  split; [|split]; cbn; [|exists []; now rewrite app_nil_r|lia].
+  intros i x H. exists x. split; auto. apply inst_le_refl.
+Qed.
+
+#[global] Hint Resolve g_le_refl g_le_set_cur g_le_set_tags g_le_rm_tag g_le_add_log g_le_add_inst g_le_set_multi : gle.
 
 (* the helpers only append to the log *)
-Lemma op_done_k_le k t g l r hs nr es g' l' es' : op_done_k k t g l r hs nr es = Some (g', l', es') -> g_le g g'.
+Lemma op_done_k_le k t g l r hs nr ri es g' l' es' : op_done_k k t g l r hs nr ri es = Some (g', l', es') -> g_le g g'.
 Proof. unfold op_done_k. intros H; inversion H; subst. auto with gle. Qed.
 
 Lemma op_done_le t g l r hs nr es g' l' es' : op_done t g l r hs nr es = Some (g', l', es') -> g_le g g'.
@@ -211,7 +217,7 @@ Definition creating (p : pc) : option nat :=
 
 Definition LInv (g : gst) (t : nat) (l : lst) : Prop :=
   match at_pc l with
-  | OReg j _ => final g j
+  | OReg j _ | RIncr j _ => final g j
   | p => match creating p with
          | Some i => exists x, get_inst g i = Some x /\ i_owner x = t /\ i_dy x <> DFinal
          | None => True
@@ -219,7 +225,7 @@ Definition LInv (g : gst) (t : nat) (l : lst) : Prop :=
   end.
 
 Definition plain_pc (p : pc) : Prop :=
-  match p with OReg _ _ => False | p => creating p = None end.
+  match p with OReg _ _ | RIncr _ _ => False | p => creating p = None end.
 
 Lemma plain_LInv g t l : plain_pc (at_pc l) -> LInv g t l.
 Proof. unfold plain_pc, LInv. destruct (at_pc l); cbn; intros H; try discriminate; auto; contradiction. Qed.
@@ -321,6 +327,16 @@ Proof.
   - exists x. rewrite get_set_inst_other; auto.
 Qed.
 
+Lemma keeps_finalise g i y x0 l own :
+  at_pc l = CDyChmod own i -> get_inst g i = Some x0 -> keeps_unfinal g (set_inst g i y) l.
+Proof.
+  intros Epc E i1 x Hi N. destruct (Nat.eq_dec i1 i) as [->|Hne]; [left; eauto|right].
+  exists x. rewrite get_set_inst_other; auto.
+Qed.
+
+Lemma keeps_add_log g g0 l t k r : keeps_unfinal g g0 l -> keeps_unfinal g (add_log g0 t k r) l.
+Proof. intros K i x H N. destruct (K i x H N) as [L|R]; [left; auto|right; exact R]. Qed.
+
 Lemma keeps_trans_quiet g g0 g' l l' : keeps_unfinal g g0 l -> quiet g0 g' l' -> keeps_unfinal g g' l.
 Proof.
   intros K Q i x H N. destruct (K i x H N) as [L|(x' & A & B)]; [left; auto|right].
@@ -369,19 +385,12 @@ Proof.
   all: try (inversion H; subst; keeps_basic).
   all: try (quiet_of H; eapply keeps_trans_quiet; [|exact H]; keeps_basic).
   all: try (unfold call_succeeds, op_done_k in H; inversion H; subst; clear H).
-  - (* OReg registers *)
-    intros i0 x Hi N. right. destruct (Nat.eq_dec i0 j) as [->|Hne].
-    + eexists. split; [unfold get_inst, add_log; cbn [insts]; apply (get_set_inst_same g j _ i E)|].
-      assert (x = i) by congruence. subst. cbn. auto.
-    + exists x. split; auto. unfold get_inst, add_log; cbn [insts]. fold (get_inst (set_inst g j (upd_reg i false (i_members i ++ [t]))) i0).
-      rewrite get_set_inst_other; auto.
-  - (* CStOpen allocates a fresh instance *)
-    intros i0 x Hi N. right. exists x. split; auto. unfold set_cur, get_inst; cbn [insts].
-    apply (get_add_inst_old g _ i0 x Hi).
-  - (* CDyChmod finalises its own instance *)
-    intros i1 x Hi N. destruct (Nat.eq_dec i1 i) as [->|Hne]; [left; eauto|right].
-    exists x. split; auto. unfold get_inst, add_log; cbn [insts]. fold (get_inst (set_inst g i (upd_dy i0 DFinal true)) i1).
-    rewrite get_set_inst_other; auto.
+  all: try (apply keeps_add_log; keeps_basic).
+  (* CStOpen allocates a fresh instance *)
+  all: try (intros i0 x Hi N; right; exists x; split; auto; unfold set_cur, get_inst; cbn [insts];
+            apply (get_add_inst_old g _ i0 x Hi); fail).
+  (* CDyChmod finalises its own instance *)
+  all: try (apply keeps_add_log); eapply keeps_finalise; eauto.
 Qed.
 
 (* what a new successful entry looks like *)
@@ -411,16 +420,15 @@ Proof.
   all: try (quiet_of H; eapply new_entries_quiet; [|exact H]; reflexivity).
   all: unfold call_succeeds, op_done_k in H; inversion H; subst; clear H;
        eexists; (split; [cbn [glog add_log set_inst]; reflexivity|]); (split; [cbn; lia|]); intros e [<-|[]] _.
-  - (* OReg, node already registered *)
-    left. unfold LInv in HL. rewrite Epc in HL. destruct HL as (x & Hx & Hd).
-    exists j, (i_cfg i), x. repeat split; auto. congruence.
-  - (* OReg registers *)
-    left. unfold LInv in HL. rewrite Epc in HL. destruct HL as (x & Hx & Hd). assert (x = i) by congruence; subst.
-    eexists j, (i_cfg i), _. split; [reflexivity|]. split; [unfold get_inst, add_log; cbn [insts]; apply (get_set_inst_same g j _ i E)|].
-    cbn. auto.
-  - (* CDyChmod *)
-    right. eexists i, own, (i_cfg i0), _. split; [reflexivity|]. split; [exact Epc|].
-    split; [unfold get_inst, add_log; cbn [insts]; apply (get_set_inst_same g i _ i0 E)|]. cbn. auto.
+  (* open-side successes (OReg with a registered node, RIncr): the instance is final by LInv *)
+  all: try (left; unfold LInv in HL; rewrite Epc in HL; destruct HL as (x & Hx & Hd);
+            match goal with E : get_inst _ ?j = Some ?i |- _ => assert (x = i) by congruence; subst;
+              eexists j, (i_cfg i), _; split; [reflexivity|]; split;
+              [first [exact E | unfold get_inst, add_log; cbn [insts]; apply (get_set_inst_same _ j _ i E)]|cbn; auto] end; fail).
+  (* CDyChmod *)
+  all: right; match goal with E : get_inst _ ?i = Some ?i0, Epc : at_pc _ = CDyChmod ?own ?i |- _ =>
+         eexists i, own, (i_cfg i0), _; split; [reflexivity|]; split; [exact Epc|];
+         split; [unfold get_inst, add_log; cbn [insts]; apply (get_set_inst_same _ i _ i0 E)|]; cbn; auto end.
 Qed.
 
 Lemma step_LInv_own P t g l g' l' es :
@@ -439,6 +447,9 @@ Proof.
   all: try (destruct HL as (x & Hx & Ho & Hd); exists x; auto; fail).
   (* ODyFstatPerm saw the final permissions *)
   all: try (match goal with E : get_inst _ ?j = Some ?i |- final _ ?j => exists i; auto end; fail).
+  (* OReg populated its cell: the instance stays final *)
+  all: try (destruct HL as (x & Hx & Hd); rewrite E in Hx; inversion Hx; subst x;
+            eexists; split; [eapply get_set_inst_same; exact E|cbn; exact Hd]; fail).
   (* CStOpen *)
   all: eexists; split; [unfold set_cur, get_inst; cbn [insts]; apply get_add_inst_new|]; cbn; split; auto; discriminate.
 Qed.
